@@ -42,6 +42,10 @@ def run(P, rep, tier):
     rep.assumptions = ["pydantic v1 BaseModel.copy(update=...) returns a new object and leaves the source untouched", "leaving a `with record:` block closes (and commits) the target record"]
     ctx = Ctx(P)
     rep.attempt(r1_refusals, P, rep, ctx)
+    # the refusal "uncommitted changes" is only as good as _has_writable (typestate rule of C02.R3)
+    from . import c02
+
+    rep.attempt(c02.r3_typestate, P, rep, ctx)
     rep.attempt(r2_frame, P, rep, ctx)
     rep.attempt(r2b_shared_subobjects, P, rep, ctx)
     rep.attempt(r3_identity, P, rep, ctx)
